@@ -600,6 +600,64 @@ def run(ctx):
     from .c01 import crc_flag_implies_checksum_rule
     crc_flag_implies_checksum_rule(ctx, mpq, "C10")
 
+    # RSA verification: s and s + n give the same s^e mod n, so a verifier that does not require s < n keeps accepting a signature that
+    # was changed (by adding the modulus).  Every verifier compares the signature integer with the modulus before exponentiating
+    R_rng = ctx.rule("C10.signature-value-below-the-modulus", "in every verifying function of crypto::signature that calls modpow, an ordered comparison of big integers (the signature against n) dominates the modpow call", floor=3)
+    for f in mpq.fn_list:
+        if f.kind == "Closure" or not f.mir or not f.mir.get("blocks") or "::crypto::signature::" not in f.path or "::tests::" in f.path or not re.search(r"verify", f.path.split("::")[-1]):
+            continue
+        mp = [(bb, t) for bb, t in mirg.iter_calls(f) if re.search(r"modpow$", ncallee(t) or "")]
+        if not mp:
+            continue
+        ctx.saw_fn(f)
+        cfg_s = mirg.Cfg(f)
+        cmps = [bb for bb, t in mirg.iter_calls(f) if re.search(r"cmp::PartialOrd(<.*>)?>?::(ge|gt|lt|le)$|cmp::Ord>?::cmp$|PartialOrd::partial_cmp$", mirg.callee(t) or "") and re.search(r"BigUint|BigInt", str(t.get("f")))]
+        for bb, t in mp:
+            if any(cb != bb and cfg_s.dominates(cb, bb) for cb in cmps):
+                ctx.ok(R_rng, {"fn": f.path.split("::")[-1], "line": t["ln"]})
+            else:
+                ctx.bad(R_rng, "%s|no-range-check" % f.path.split("::")[-1], "%s:%d" % (f.file, t["ln"]), "`modpow` is applied to the signature value without a preceding comparison with the modulus",
+                        "the 64 signature bytes s replaced by s + n (when that still fits) verify exactly as s does: a changed signature keeps verifying")
+
+    # a (signature) file that is there but cannot be parsed is an invalid signature, not an absent one ("no signature" is what callers —
+    # the C API's SFileVerifyArchive among them — treat as nothing to complain about)
+    R_abs = ctx.rule("C10.unparsable-signature-is-invalid-not-absent", "in Archive::verify_weak_signature (and siblings) no `Err` arm of a signature parse / verification yields SignatureStatus::None", floor=1)
+    for f in mpq.fn_list:
+        if not f.hir or f.kind == "Closure" or "::archive::" not in f.path or "::tests::" in f.path or not re.search(r"verify_weak_signature", f.path.split("::")[-1]):
+            continue
+        # (the strong signature is a trailer behind the archive: bytes there that do not parse are simply not a signature)
+        for m_ in hirq.find(f.hir["body"], "match"):
+            if not re.search(r"parse_\w*signature|verify_\w*signature", hirq.render(m_["e"] if "e" in m_ else m_.get("scrut") or {})):
+                continue
+            ctx.saw_fn(f)
+            for a_ in m_["arms"]:
+                if not (hirq.pat_ctor(a_["pat"]) or "").endswith("Err"):
+                    continue
+                none_ = any(x_.get("k") == "path" and ((x_.get("res") or {}).get("def") or "").endswith("SignatureStatus::None") for x_ in hirq.walk(a_["body"]))
+                if none_:
+                    ctx.bad(R_abs, "%s|err-arm-yields-none" % f.path.split("::")[-1], "%s:%d" % (f.file, a_["body"].get("ln") or m_.get("ln") or 0), "a failed `%s` is reported as SignatureStatus::None" % hirq.render(m_["e"] if "e" in m_ else {})[:50],
+                            "zeroing or truncating the signature inside (signature) makes the archive count as unsigned: verification no longer fails, and SFileVerifyArchive returns success")
+                else:
+                    ctx.ok(R_abs, {"fn": f.path.split("::")[-1], "match": hirq.render(m_["e"] if "e" in m_ else {})[:40]})
+
+    # sibling readers: every function that decrypts stored file data itself (the single-unit / stored path of a reader) also validates
+    # the single-unit checksum trailer — the same corruption must not be reported by one read entry point and returned as content by another
+    R_sib = ctx.rule("C10.every-single-unit-reader-checks-the-trailer", "each function of archive.rs that calls decrypt_stored_data (serves stored / single-unit content) also tests has_sector_crc() and computes an ADLER32 that is compared", floor=2)
+    for f in mpq.fn_list:
+        if f.kind == "Closure" or not f.mir or not f.mir.get("blocks") or "::archive::" not in f.path or "::tests::" in f.path:
+            continue
+        calls_ = [(bb, ncallee(t) or "") for bb, t in mirg.iter_calls(f)]
+        if not any(c_.endswith("archive::decrypt_stored_data") for _b, c_ in calls_):
+            continue
+        ctx.saw_fn(f)
+        has_flag = any(c_.endswith("has_sector_crc") for _b, c_ in calls_)
+        has_sum = any(re.search(r"adler32", c_.lower()) for _b, c_ in calls_)
+        if has_flag and has_sum:
+            ctx.ok(R_sib, {"reader": f.path.split("::")[-1]})
+        else:
+            ctx.bad(R_sib, "%s|no-trailer-check" % f.path.split("::")[-1], f.where, "`%s` serves single-unit content but %s" % (f.path.split("::")[-1], "never looks at has_sector_crc()" if not has_flag else "computes no checksum"),
+                    "a changed byte in a single-unit file is reported as ChecksumMismatch by read_file and returned as file content, with Ok, by this entry point")
+
     # the sector checksum table: the reader expects it exactly for the files the builder writes it for.  The builder writes a sectored
     # file (with its checksum table when generate_crcs) as soon as the data is one byte longer than a sector — two sectors — so a
     # reader that only looks for the table from three sectors on never checks two-sector files.
